@@ -1,241 +1,203 @@
-(* ParseQuery.v — model of parser/query.go, one function per Go function. *)
-From GQL.model Require Import Base Utf8 Lexer Ast Parser.
+(* ParseQuery.v — model of parser/query.go, one program per Go function. *)
+From GQL.model Require Import Base Utf8 Lexer Ast Parser Prog.
 Open Scope Z_scope.
 
-Definition stall {A} (x : A) (s : pst) : A * pst := (x, set_err s PStall).
+Definition parseVariable : prog str := _ <- expect Dollar ;; parseName.
 
-Definition parseVariable (d : dev) (s : pst) : str * pst :=
-  let '(_, s1) := expect d Dollar s in parseName d s1.
-
-Fixpoint parseValueLiteral (d : dev) (fuel : nat) (isConst : bool) (s : pst) : value * pst :=
+Fixpoint parseValueLiteral (fuel : nat) (isConst : bool) : prog value :=
   match fuel with
-  | O => stall value0 s
+  | O => stalled value0
   | S f =>
-    let '(token, s1) := peek d s in
-    let tp := pos_of_tok (src s) token in
+    token <- Peek ;;
+    ix <- SrcIx ;;
+    let tp := pos_of_tok ix token in
+    let lit (k : vkind) : prog value := _ <- Next ;; Ret (mkValue k token.(tval) [] tp) in
     match token.(tkind) with
     | BracketL =>
-      let '(p, s2) := peekPos d s1 in
-      let '(vals, s3) := many d (fun st => let '(v, st') := parseValueLiteral d f isConst st in
-                                           (([], None, v), st')) f BracketL BracketR s2 in
-      (mkValue VList [] vals p, s3)
+      p <- peekPos ;;
+      vals <- many BracketL BracketR (v <- parseValueLiteral f isConst ;; Ret ([], None, v)) ;;
+      Ret (mkValue VList [] vals p)
     | BraceL =>
-      let '(p, s2) := peekPos d s1 in
-      let '(flds, s3) := many d (fun st =>
-                                   let '(fp, st1) := peekPos d st in
-                                   let '(n, st2) := parseName d st1 in
-                                   let '(_, st3) := expect d Colon st2 in
-                                   let '(v, st4) := parseValueLiteral d f isConst st3 in
-                                   ((n, Some fp, v), st4)) f BraceL BraceR s2 in
-      (mkValue VObject [] flds p, s3)
+      p <- peekPos ;;
+      flds <- many BraceL BraceR
+                (fp <- peekPos ;; n <- parseName ;; _ <- expect Colon ;;
+                 v <- parseValueLiteral f isConst ;; Ret (n, Some fp, v)) ;;
+      Ret (mkValue VObject [] flds p)
     | Dollar =>
-      if isConst then (value0, unexpectedError d s1)
-      else let '(n, s2) := parseVariable d s1 in (mkValue VVar n [] tp, s2)
-    | Int => let '(_, s2) := next d s1 in (mkValue VInt token.(tval) [] tp, s2)
-    | Float => let '(_, s2) := next d s1 in (mkValue VFloat token.(tval) [] tp, s2)
-    | String_ => let '(_, s2) := next d s1 in (mkValue VString token.(tval) [] tp, s2)
-    | BlockString => let '(_, s2) := next d s1 in (mkValue VBlock token.(tval) [] tp, s2)
+      if isConst then unexpectedError ;;; Ret value0
+      else n <- parseVariable ;; Ret (mkValue VVar n [] tp)
+    | Int => lit VInt
+    | Float => lit VFloat
+    | String_ => lit VString
+    | BlockString => lit VBlock
     | Name =>
-      let k := if str_eqb token.(tval) (b "true") || str_eqb token.(tval) (b "false") then VBool
-               else if str_eqb token.(tval) (b "null") then VNull else VEnum in
-      let '(_, s2) := next d s1 in (mkValue k token.(tval) [] tp, s2)
-    | _ => (value0, unexpectedError d s1)
+      lit (if str_eqb token.(tval) (b "true") || str_eqb token.(tval) (b "false") then VBool
+           else if str_eqb token.(tval) (b "null") then VNull else VEnum)
+    | _ => unexpectedError ;;; Ret value0
     end
   end.
 
-Fixpoint parseTypeReference (d : dev) (fuel : nat) (s : pst) : type_ * pst :=
+Fixpoint parseTypeReference (fuel : nat) : prog type_ :=
   match fuel with
-  | O => stall type0 s
+  | O => stalled type0
   | S f =>
-    let '(isList, s1) := skip d BracketL s in
+    isList <- skip BracketL ;;
     if isList then
-      let '(p, s2) := peekPos d s1 in
-      let '(e, s3) := parseTypeReference d f s2 in
-      let '(_, s4) := expect d BracketR s3 in
-      let '(nn, s5) := skip d Bang s4 in
-      (ListT e nn p, s5)
+      p <- peekPos ;; e <- parseTypeReference f ;; _ <- expect BracketR ;;
+      nn <- skip Bang ;; Ret (ListT e nn p)
     else
-      let '(p, s2) := peekPos d s1 in
-      let '(n, s3) := parseName d s2 in
-      let '(nn, s4) := skip d Bang s3 in
-      (NamedT n nn p, s4)
+      p <- peekPos ;; n <- parseName ;; nn <- skip Bang ;; Ret (NamedT n nn p)
   end.
 
-Definition parseArgument (d : dev) (fuel : nat) (isConst : bool) (s : pst) : argument * pst :=
-  let '(p, s1) := peekPos d s in
-  let '(n, s2) := parseName d s1 in
-  let '(_, s3) := expect d Colon s2 in
-  let '(v, s4) := parseValueLiteral d fuel isConst s3 in
-  (mkArg n v p, s4).
+Definition parseArgument (fuel : nat) (isConst : bool) : prog argument :=
+  p <- peekPos ;; n <- parseName ;; _ <- expect Colon ;;
+  v <- parseValueLiteral fuel isConst ;; Ret (mkArg n v p).
 
-Definition parseArguments (d : dev) (fuel : nat) (isConst : bool) (s : pst) : list argument * pst :=
-  some d (parseArgument d fuel isConst) fuel ParenL ParenR s.
+Definition parseArguments (fuel : nat) (isConst : bool) : prog (list argument) :=
+  some ParenL ParenR (parseArgument fuel isConst).
 
-Definition parseDirective (d : dev) (fuel : nat) (isConst : bool) (s : pst) : directive * pst :=
-  let '(_, s1) := expect d At s in
-  let '(p, s2) := peekPos d s1 in
-  let '(n, s3) := parseName d s2 in
-  let '(args, s4) := parseArguments d fuel isConst s3 in
-  (mkDir n args p, s4).
+Definition parseDirective (fuel : nat) (isConst : bool) : prog directive :=
+  _ <- expect At ;; p <- peekPos ;; n <- parseName ;;
+  args <- parseArguments fuel isConst ;; Ret (mkDir n args p).
 
 (* for p.peek().Kind == lexer.At { if p.err != nil { break }; append(parseDirective) } *)
-Fixpoint parseDirectives_loop (d : dev) (loopfuel fuel : nat) (isConst : bool) (s : pst) (acc : list directive)
-  : list directive * pst :=
-  match loopfuel with
-  | O => stall (rev acc) s
-  | S lf =>
-    let '(tok, s1) := peek d s in
-    if kind_eqb tok.(tkind) At && negb (has_err s1) then
-      let '(x, s2) := parseDirective d fuel isConst s1 in
-      parseDirectives_loop d lf fuel isConst s2 (x :: acc)
-    else (rev acc, s1)
-  end.
-Definition parseDirectives (d : dev) (fuel : nat) (isConst : bool) (s : pst) : list directive * pst :=
-  parseDirectives_loop d fuel fuel isConst s [].
+Definition parseDirectives (fuel : nat) (isConst : bool) : prog (list directive) :=
+  Loop (tok <- Peek ;; e <- HasErr ;;
+        if kind_eqb tok.(tkind) At && negb e then (x <- parseDirective fuel isConst ;; Ret (Some x))
+        else Ret None).
 
-Definition parseVariableDefinition (d : dev) (fuel : nat) (s : pst) : vardef * pst :=
-  let '(p, s1) := peekPos d s in
-  let '(v, s2) := parseVariable d s1 in
-  let '(_, s3) := expect d Colon s2 in
-  let '(t, s4) := parseTypeReference d fuel s3 in
-  let '(hasdef, s5) := skip d Equals s4 in
-  let '(dv, s6) := if hasdef then let '(x, st) := parseValueLiteral d fuel true s5 in (Some x, st)
-                   else (None, s5) in
-  let '(dirs, s7) := parseDirectives d fuel (negb (d F_Q1)) s6 in
-  (mkVarDef v t dv dirs p, s7).
+Definition parseVariableDefinition (d : dev) (fuel : nat) : prog vardef :=
+  p <- peekPos ;; v <- parseVariable ;; _ <- expect Colon ;;
+  t <- parseTypeReference fuel ;;
+  hasdef <- skip Equals ;;
+  dv <- (if hasdef then x <- parseValueLiteral fuel true ;; Ret (Some x) else Ret None) ;;
+  dirs <- parseDirectives fuel (negb (d F_Q1)) ;;
+  Ret (mkVarDef v t dv dirs p).
 
-Definition parseVariableDefinitions (d : dev) (fuel : nat) (s : pst) : list vardef * pst :=
-  some d (parseVariableDefinition d fuel) fuel ParenL ParenR s.
+Definition parseVariableDefinitions (d : dev) (fuel : nat) : prog (list vardef) :=
+  some ParenL ParenR (parseVariableDefinition d fuel).
 
 Definition tok_is_on (d : dev) (tok : token) : bool :=
   str_eqb tok.(tval) (b "on") && (d F_Q2 || kind_eqb tok.(tkind) Name).
 
-Definition parseFragmentName (d : dev) (s : pst) : str * pst :=
-  let '(tok, s1) := peek d s in
-  if str_eqb tok.(tval) (b "on") then ([], unexpectedError d s1) else parseName d s1.
+Definition parseFragmentName : prog str :=
+  tok <- Peek ;;
+  if str_eqb tok.(tval) (b "on") then unexpectedError ;;; Ret [] else parseName.
 
 Definition sel0 : selection := SSpread [] [] pos0.
 
-Fixpoint parseSelection (d : dev) (fuel : nat) (s : pst) : selection * pst :=
+Definition requiredSelectionSet (sel : prog selection) : prog (list selection) :=
+  tok <- Peek ;;
+  if negb (kind_eqb tok.(tkind) BraceL) then ErrorAt tok ;;; Ret []
+  else some BraceL BraceR sel.
+
+Fixpoint parseSelection (d : dev) (fuel : nat) : prog selection :=
   match fuel with
-  | O => stall sel0 s
+  | O => stalled sel0
   | S f =>
-    let required (st : pst) : list selection * pst :=
-        let '(tok, st1) := peek d st in
-        if negb (kind_eqb tok.(tkind) BraceL) then ([], error_at st1 tok)
-        else some d (parseSelection d f) f BraceL BraceR st1 in
-    let '(tok, s1) := peek d s in
+    tok <- Peek ;;
     if kind_eqb tok.(tkind) Spread then
       (* parseFragment *)
-      let '(_, s2) := expect d Spread s1 in
-      let '(pk, s3) := peek d s2 in
+      _ <- expect Spread ;;
+      pk <- Peek ;;
       if kind_eqb pk.(tkind) Name && negb (str_eqb pk.(tval) (b "on")) then
-        let '(p, s4) := peekPos d s3 in
-        let '(n, s5) := parseFragmentName d s4 in
-        let '(dirs, s6) := parseDirectives d f false s5 in
-        (SSpread n dirs p, s6)
+        p <- peekPos ;; n <- parseFragmentName ;; dirs <- parseDirectives f false ;;
+        Ret (SSpread n dirs p)
       else
-        let '(p, s4) := peekPos d s3 in
-        let '(pk2, s5) := peek d s4 in
-        let '(tc, s6) := if tok_is_on d pk2 then let '(_, st) := next d s5 in parseName d st
-                         else ([], s5) in
-        let '(dirs, s7) := parseDirectives d f false s6 in
-        let '(sels, s8) := required s7 in
-        (SInline tc dirs sels p, s8)
+        p <- peekPos ;;
+        pk2 <- Peek ;;
+        tc <- (if tok_is_on d pk2 then _ <- Next ;; parseName else Ret []) ;;
+        dirs <- parseDirectives f false ;;
+        sels <- requiredSelectionSet (parseSelection d f) ;;
+        Ret (SInline tc dirs sels p)
     else
       (* parseField *)
-      let '(p, s2) := peekPos d s1 in
-      let '(al, s3) := parseName d s2 in
-      let '(hasColon, s4) := skip d Colon s3 in
-      let '(n, s5) := if hasColon then parseName d s4 else (al, s4) in
-      let '(args, s6) := parseArguments d f false s5 in
-      let '(dirs, s7) := parseDirectives d f false s6 in
-      let '(pk, s8) := peek d s7 in
-      let '(sels, s9) := if kind_eqb pk.(tkind) BraceL
-                         then some d (parseSelection d f) f BraceL BraceR s8
-                         else ([], s8) in
-      (SField al n args dirs sels p, s9)
+      p <- peekPos ;; al <- parseName ;;
+      hasColon <- skip Colon ;;
+      n <- (if hasColon then parseName else Ret al) ;;
+      args <- parseArguments f false ;;
+      dirs <- parseDirectives f false ;;
+      pk <- Peek ;;
+      sels <- (if kind_eqb pk.(tkind) BraceL then some BraceL BraceR (parseSelection d f) else Ret []) ;;
+      Ret (SField al n args dirs sels p)
   end.
 
-Definition parseRequiredSelectionSet (d : dev) (fuel : nat) (s : pst) : list selection * pst :=
-  let '(tok, s1) := peek d s in
-  if negb (kind_eqb tok.(tkind) BraceL) then ([], error_at s1 tok)
-  else some d (parseSelection d fuel) fuel BraceL BraceR s1.
+Definition parseRequiredSelectionSet (d : dev) (fuel : nat) : prog (list selection) :=
+  requiredSelectionSet (parseSelection d fuel).
 
-Definition parseOperationType (d : dev) (s : pst) : optype * pst :=
-  let '(tok, s1) := next d s in
+Definition parseOperationType (d : dev) : prog optype :=
+  tok <- Next ;;
   let named := d F_S2 || kind_eqb tok.(tkind) Name in
-  if named && str_eqb tok.(tval) (b "query") then (OpQuery, s1)
-  else if named && str_eqb tok.(tval) (b "mutation") then (OpMutation, s1)
-  else if named && str_eqb tok.(tval) (b "subscription") then (OpSubscription, s1)
-  else (OpNone, error_at s1 tok).
+  if named && str_eqb tok.(tval) (b "query") then Ret OpQuery
+  else if named && str_eqb tok.(tval) (b "mutation") then Ret OpMutation
+  else if named && str_eqb tok.(tval) (b "subscription") then Ret OpSubscription
+  else ErrorAt tok ;;; Ret OpNone.
 
-Definition parseOperationDefinition (d : dev) (fuel : nat) (s : pst) : opdef * pst :=
-  let '(tok, s1) := peek d s in
+Definition parseOperationDefinition (d : dev) (fuel : nat) : prog opdef :=
+  tok <- Peek ;;
   if kind_eqb tok.(tkind) BraceL then
-    let '(p, s2) := peekPos d s1 in
-    let '(sels, s3) := parseRequiredSelectionSet d fuel s2 in
-    (mkOp OpQuery [] [] [] sels p, s3)
+    p <- peekPos ;; sels <- parseRequiredSelectionSet d fuel ;;
+    Ret (mkOp OpQuery [] [] [] sels p)
   else
-    let '(p, s2) := peekPos d s1 in
-    let '(op, s3) := parseOperationType d s2 in
-    let '(pk, s4) := peek d s3 in
-    let '(n, s5) := if kind_eqb pk.(tkind) Name then let '(t, st) := next d s4 in (t.(tval), st) else ([], s4) in
-    let '(vars, s6) := parseVariableDefinitions d fuel s5 in
-    let '(dirs, s7) := parseDirectives d fuel false s6 in
-    let '(sels, s8) := parseRequiredSelectionSet d fuel s7 in
-    (mkOp op n vars dirs sels p, s8).
+    p <- peekPos ;;
+    op <- parseOperationType d ;;
+    pk <- Peek ;;
+    n <- (if kind_eqb pk.(tkind) Name then t <- Next ;; Ret t.(tval) else Ret []) ;;
+    vars <- parseVariableDefinitions d fuel ;;
+    dirs <- parseDirectives fuel false ;;
+    sels <- parseRequiredSelectionSet d fuel ;;
+    Ret (mkOp op n vars dirs sels p).
 
-Definition parseFragmentDefinition (d : dev) (fuel : nat) (s : pst) : fragdef * pst :=
-  let '(p, s1) := peekPos d s in
-  let '(_, s2) := expectKeyword d (b "fragment") s1 in
-  let '(n, s3) := parseFragmentName d s2 in
-  let '(vars, s4) := if d F_Q4 then parseVariableDefinitions d fuel s3 else ([], s3) in
-  let '(_, s5) := expectKeyword d (b "on") s4 in
-  let '(tc, s6) := parseName d s5 in
-  let '(dirs, s7) := parseDirectives d fuel false s6 in
-  let '(sels, s8) := parseRequiredSelectionSet d fuel s7 in
-  (mkFrag n vars tc dirs sels p, s8).
+Definition parseFragmentDefinition (d : dev) (fuel : nat) : prog fragdef :=
+  p <- peekPos ;;
+  _ <- expectKeyword (b "fragment") ;;
+  n <- parseFragmentName ;;
+  vars <- (if d F_Q4 then parseVariableDefinitions d fuel else Ret []) ;;
+  _ <- expectKeyword (b "on") ;;
+  tc <- parseName ;;
+  dirs <- parseDirectives fuel false ;;
+  sels <- parseRequiredSelectionSet d fuel ;;
+  Ret (mkFrag n vars tc dirs sels p).
 
-Fixpoint parseQueryDocument_loop (d : dev) (loopfuel fuel : nat) (s : pst)
-         (ops : list opdef) (frags : list fragdef) (dp : option pos) : qdoc * pst :=
-  match loopfuel with
-  | O => stall (mkQDoc (rev ops) (rev frags) dp) s
-  | S lf =>
-    let '(tok, s1) := peek d s in
-    if kind_eqb tok.(tkind) EOF then (mkQDoc (rev ops) (rev frags) dp, s1)
-    else if has_err s1 then (mkQDoc (rev ops) (rev frags) dp, s1)
-    else
-      let '(p, s2) := peekPos d s1 in
-      let dp' := Some p in
-      let '(tk, s3) := peek d s2 in
-      match tk.(tkind) with
-      | Name =>
-        if str_eqb tk.(tval) (b "query") || str_eqb tk.(tval) (b "mutation") || str_eqb tk.(tval) (b "subscription")
-        then let '(o, s4) := parseOperationDefinition d fuel s3 in
-             parseQueryDocument_loop d lf fuel s4 (o :: ops) frags dp'
-        else if str_eqb tk.(tval) (b "fragment")
-        then let '(f, s4) := parseFragmentDefinition d fuel s3 in
-             parseQueryDocument_loop d lf fuel s4 ops (f :: frags) dp'
-        else parseQueryDocument_loop d lf fuel (unexpectedError d s3) ops frags dp'
-      | BraceL =>
-        let '(o, s4) := parseOperationDefinition d fuel s3 in
-        parseQueryDocument_loop d lf fuel s4 (o :: ops) frags dp'
-      | _ => parseQueryDocument_loop d lf fuel (unexpectedError d s3) ops frags dp'
-      end
+Inductive qdef := QOp (o : opdef) | QFrag (f : fragdef) | QNone.
+
+(* one iteration of the document loop: (position of the definition, definition) or stop *)
+Definition parseQueryDocument_body (d : dev) (fuel : nat) : prog (option (pos * qdef)) :=
+  tok <- Peek ;;
+  if kind_eqb tok.(tkind) EOF then Ret None else
+  e <- HasErr ;;
+  if e then Ret None else
+  p <- peekPos ;;
+  tk <- Peek ;;
+  match tk.(tkind) with
+  | Name =>
+    if str_eqb tk.(tval) (b "query") || str_eqb tk.(tval) (b "mutation") || str_eqb tk.(tval) (b "subscription")
+    then o <- parseOperationDefinition d fuel ;; Ret (Some (p, QOp o))
+    else if str_eqb tk.(tval) (b "fragment")
+    then f <- parseFragmentDefinition d fuel ;; Ret (Some (p, QFrag f))
+    else unexpectedError ;;; Ret (Some (p, QNone))
+  | BraceL => o <- parseOperationDefinition d fuel ;; Ret (Some (p, QOp o))
+  | _ => unexpectedError ;;; Ret (Some (p, QNone))
   end.
 
-Definition parseQueryDocument (d : dev) (fuel : nat) (s : pst) : qdoc * pst :=
-  let '(doc, s1) := parseQueryDocument_loop d fuel fuel s [] [] None in
+Fixpoint qdoc_ops (l : list (pos * qdef)) : list opdef :=
+  match l with [] => [] | (_, QOp o) :: tl => o :: qdoc_ops tl | _ :: tl => qdoc_ops tl end.
+Fixpoint qdoc_frags (l : list (pos * qdef)) : list fragdef :=
+  match l with [] => [] | (_, QFrag f) :: tl => f :: qdoc_frags tl | _ :: tl => qdoc_frags tl end.
+
+Definition parseQueryDocument (d : dev) (fuel : nat) : prog qdoc :=
+  defs <- Loop (parseQueryDocument_body d fuel) ;;
+  let doc := mkQDoc (qdoc_ops defs) (qdoc_frags defs)
+                    (match rev defs with (p, _) :: _ => Some p | [] => None end) in
   match doc.(q_ops), doc.(q_frags) with
-  | [], [] => if d F_Q3 || has_err s1 then (doc, s1) else (doc, unexpectedError d s1)
-  | _, _ => (doc, s1)
+  | [], [] => e <- HasErr ;; if d F_Q3 || e then Ret doc else unexpectedError ;;; Ret doc
+  | _, _ => Ret doc
   end.
 
-Definition query_fuel (input : str) : nat := length input + 4.
+Definition query_fuel (input : str) : nat := 2 * length input + 8.
 
 Definition parseQueryWith (d : dev) (fuel : nat) (limit : N) (input : str) : pres qdoc * pst :=
-  let '(doc, s) := parseQueryDocument d fuel (pst_init input limit 0) in
+  let '(doc, s) := run d (parseQueryDocument d fuel) fuel (pst_init input limit 0) in
   match perr_ s with
   | None => (POk doc, s)
   | Some e => (PErr e, s)
